@@ -651,6 +651,17 @@ func (e *FnEnc) opaqueCall(cc *ssa.CallCommon, args []Val, resT types.Type, name
 		for _, a := range args {
 			e.havocArg(a)
 		}
+		// a pointer boxed into an interface at the call site (binary.Read(r, order, &x), fmt.Sscan(&x), ...):
+		// the callee may write through it
+		for _, ca := range cc.Args {
+			if mi, ok := ca.(*ssa.MakeInterface); ok {
+				if _, isPtr := mi.X.Type().Underlying().(*types.Pointer); isPtr {
+					pv := e.val(mi.X)
+					pv.T = mi.X.Type()
+					e.havocArg(pv)
+				}
+			}
+		}
 	default:
 		e.note("opaque call havocs the whole heap: " + name + " (in " + e.key + ")")
 		e.havocAll()
